@@ -299,11 +299,32 @@ def r09c(repo: Repo, chk: Check):
             if len(ds) == 1 and ds[0].kind == "assign" and not ds[0].index:
                 return ds[0].value
             return None
+        from ..inline import _clone
+        # the index through a local copy ('target = i'), and 'for i, ln in enumerate(lines)': ln is lines[i]
+        if isinstance(target, ast.Subscript) and isinstance(target.slice, ast.Name):
+            r_ = resolve(target.slice)
+            if isinstance(r_, ast.Name):
+                target = ast.Subscript(value=target.value, slice=r_, ctx=ast.Load())
+        elem = {}
+        p_ = n.ast
+        while p_ is not None and p_ is not fn:
+            if isinstance(p_, ast.For) and isinstance(p_.iter, ast.Call) and norm(p_.iter.func) == "enumerate" and len(p_.iter.args) == 1 \
+                    and isinstance(p_.target, ast.Tuple) and len(p_.target.elts) == 2 and all(isinstance(x, ast.Name) for x in p_.target.elts):
+                rebinds = [x for x in ast.walk(p_) if isinstance(x, ast.Name) and isinstance(x.ctx, ast.Store) and x.id == p_.target.elts[1].id and x is not p_.target.elts[1]]
+                if not rebinds:
+                    elem[p_.target.elts[1].id] = ast.Subscript(value=p_.iter.args[0], slice=ast.Name(id=p_.target.elts[0].id, ctx=ast.Load()), ctx=ast.Load())
+            p_ = getattr(p_, "parent", None)
+
+        class _Elem(ast.NodeTransformer):
+            def visit_Name(self, nm):
+                return _clone(elem[nm.id]) if nm.id in elem and isinstance(nm.ctx, ast.Load) else nm
         want = {f"len({norm(target)})": 1, f"len({norm(note)})": 1}
         best = None
         for test, pol in cfg.guards(n.id):
             if not isinstance(test, ast.expr):
                 continue
+            if elem:
+                test = _Elem().visit(_clone(test))
             ub = compare_upper_bound(test, pol, resolve)
             if ub is None:
                 continue
